@@ -433,13 +433,14 @@ fn suite(out: &mut Vec<String>) {
                     out.push(recv_line(&c, &format!("suite-sym-{}", name), &v));
                 }
             }
-            // padding length byte == everything before it (pb + 1 == padding end)
-            let t = mk(1, &[]);
-            let mut t2 = t.clone();
-            let l = t2.len();
-            t2[l - 1] = (16 + l - 1) as u8;
-            if let Some(v) = craft_sym(&c, b"MSG", b'F', &t2, true) {
-                out.push(recv_line(&c, "suite-sym-pad-eq-end", &v));
+            // one-byte layout: announced padding size = padding end - 2, - 1, + 0, + 1 (padding end = 16 + tail)
+            for (name, d) in [("end-2", -2i64), ("end-1", -1), ("end", 0), ("end+1", 1)] {
+                let mut t2 = mk(1, &[]);
+                let l = t2.len();
+                t2[l - 1] = (16 + l as i64 + d) as u8;
+                if let Some(v) = craft_sym(&c, b"MSG", b'F', &t2, true) {
+                    out.push(recv_line(&c, &format!("suite-sym-pad-{}", name), &v));
+                }
             }
             if let Some(v) = craft_sym(&c, b"CLO", b'F', &mk(1, &[2, 2, 2]), false) {
                 out.push(recv_line(&c, "suite-sym-badmac", &v));
@@ -480,9 +481,13 @@ fn suite(out: &mut Vec<String>) {
             if own.size > 256 {
                 v.push(("pad-len0", opn(&[&body8[..], &[0, 0]].concat(), true)));
                 v.push(("pad-len1", opn(&[&body8[..], &[1, 1, 0]].concat(), true)));
-                let end = hdr_len0 + body8.len() + 2 - 2;
-                body8.extend_from_slice(&(end as u16).to_le_bytes());
-                v.push(("pad-eq-end", opn(&body8, true)));
+                // announced padding size = padding end - 2, - 1, + 0, + 1 (padding end = header + plain text)
+                let end = hdr_len0 + body8.len() + 2;
+                for (name, d) in [("pad-end-2", -2i64), ("pad-end-1", -1), ("pad-end", 0), ("pad-end+1", 1)] {
+                    let mut b2 = body8.clone();
+                    b2.extend_from_slice(&((end as i64 + d) as u16).to_le_bytes());
+                    v.push((name, opn(&b2, true)));
+                }
             } else {
                 v.push(("pad-len0", opn(&[&body8[..], &[0]].concat(), true)));
                 v.push(("pad-len1", opn(&[&body8[..], &[1, 1]].concat(), true)));
